@@ -1,0 +1,498 @@
+//go:build verif
+
+/*
+ Licensed to the Apache Software Foundation (ASF) under one
+ or more contributor license agreements.  See the NOTICE file
+ distributed with this work for additional information
+ regarding copyright ownership.  The ASF licenses this file
+ to you under the Apache License, Version 2.0 (the
+ "License"); you may not use this file except in compliance
+ with the License.  You may obtain a copy of the License at
+
+     http://www.apache.org/licenses/LICENSE-2.0
+
+ Unless required by applicable law or agreed to in writing, software
+ distributed under the License is distributed on an "AS IS" BASIS,
+ WITHOUT WARRANTIES OR CONDITIONS OF ANY KIND, either express or implied.
+ See the License for the specific language governing permissions and
+ limitations under the License.
+*/
+
+// Critical-section monitor of the tracing lock wrappers (verification harness only).
+//
+// Per goroutine the wrappers keep the last finished critical sections (lock object, mode, stack of the
+// acquisition with frame identities). When a goroutine requests a lock in WRITE mode that it held and released
+// a moment ago, and both acquisitions happened inside one invocation of a function F at two different places of
+// F (F had not returned in between, as far as the frames seen at the lock operations in between can tell), the pair is
+// recorded as a SPLIT critical section of F: the candidates for check-then-act. Once a split section of F has been
+// seen, the release that ends its first part is followed by a short seed-driven sleep (the window between the
+// two parts is widened) when yields are switched on.
+
+package locking
+
+import (
+	"os"
+	"runtime"
+	"sort"
+	"strconv"
+	"strings"
+	"sync"
+	"sync/atomic"
+	"time"
+	"unsafe"
+)
+
+const (
+	verifFPDepth  = 12 // frames kept per acquisition
+	verifRingSize = 12 // finished sections remembered per goroutine
+)
+
+// verifStack: return addresses (innermost first) and frame identities of one lock acquisition.
+type verifStack struct {
+	n   int
+	pcs [verifFPDepth]uintptr
+	ids [verifFPDepth]uintptr
+}
+
+type verifSec struct {
+	p    unsafe.Pointer
+	read bool
+	dead int // frames st[0..dead-1] have returned since the section was finished
+	st   verifStack
+}
+
+// VerifSplit is one kind of split critical section: inside one invocation of Func the lock of one object was
+// released and taken again in write mode at another place of Func.
+type VerifSplit struct {
+	Func       string   // the function whose single invocation contains both sections
+	FirstFunc  string   // the function that took the lock for the first section
+	SecondFunc string   // the function that took the lock (write mode) for the second section
+	FirstRead  bool     // the first section held the lock in read mode
+	First      []string // call stack (innermost first) of the first acquisition
+	Second     []string // call stack of the second acquisition
+	Lock       uintptr  // one of the lock objects it was seen on
+	LockType   string   // receiver type of SecondFunc
+	Self       bool     // Func is a method of that type: the method splits the critical section of its own kind of object
+	Reviewed   bool     // listed by VerifLockSectionsReviewed
+	Count      uint64
+	Widened    uint64 // number of times the window between the two sections was widened by a sleep
+	Seq        uint64
+	Roles      []string
+}
+
+type verifSplitKey struct {
+	f1, f2, a1, a2 uintptr // pcs inside F for the two sections; innermost pcs of the two acquisitions
+	read           bool
+}
+
+type verifSplitRec struct {
+	count    uint64
+	seq      uint64
+	p        unsafe.Pointer
+	st1, st2 verifStack
+	l1, l2   int // index of F's frame in the two stacks
+	roles    map[string]struct{}
+	widened  *atomic.Uint64
+}
+
+type verifWidenSite struct {
+	level    int
+	pc       uintptr
+	reviewed bool
+	widened  *atomic.Uint64
+}
+
+var (
+	verifSplitMu    sync.Mutex
+	verifSplits     map[verifSplitKey]*verifSplitRec
+	verifSplitSeq   uint64
+	verifWidenTab   atomic.Pointer[map[uintptr][]verifWidenSite] // innermost pc of a first section -> sites
+	verifWidenTotal atomic.Uint64
+	verifWidenMax   atomic.Uint64 // sleeps per trace, all sites together
+	verifWidenNew   atomic.Uint64 // sleeps per trace and site, split sections that are not on the reviewed list
+	verifWidenOld   atomic.Uint64 // sleeps per trace and site, reviewed split sections
+	verifWidenMinUs atomic.Uint64 // sleep range, reviewed split sections
+	verifWidenMaxUs atomic.Uint64
+	verifWidenNewLo atomic.Uint64 // sleep range, split sections that are not on the reviewed list
+	verifWidenNewHi atomic.Uint64
+	verifSecOff     atomic.Bool
+	verifReviewed   map[string]struct{} // Func|FirstFunc:mode>SecondFunc (guarded by verifSplitMu)
+)
+
+// EnvSectionsDump names a file: when set, tracing (without yields) starts with the process and every new kind of split
+// critical section is appended to the file as one line (used to collect the split sections the unit tests of the
+// scheduler packages exercise: go test -tags verif with this variable set).
+const EnvSectionsDump = "VERIF_LOCK_SECTIONS_DUMP"
+
+var verifDumpPath string
+
+func init() {
+	if p := os.Getenv(EnvSectionsDump); p != "" {
+		verifDumpPath = p
+		VerifLockTraceStart(0)
+	}
+	verifWidenMax.Store(1500)
+	verifWidenNew.Store(500)
+	verifWidenOld.Store(25)
+	verifWidenMinUs.Store(20)
+	verifWidenMaxUs.Store(120)
+	verifWidenNewLo.Store(100)
+	verifWidenNewHi.Store(1000)
+}
+
+// VerifLockSections switches the critical-section monitor on or off (default on) and configures the widening of the
+// window between the two parts of a split section: at most total sleeps per trace, at most perNew / perReviewed per
+// split section (not on / on the reviewed list), each between minMicros and maxMicros microseconds (reviewed) or
+// newMinMicros and newMaxMicros (not reviewed). Sleeps happen only in traces started with a seed, and only for split
+// sections of a method on its own kind of object.
+func VerifLockSections(on bool, total, perNew, perReviewed, minMicros, maxMicros, newMinMicros, newMaxMicros uint64) {
+	verifSecOff.Store(!on)
+	verifWidenMax.Store(total)
+	verifWidenNew.Store(perNew)
+	verifWidenOld.Store(perReviewed)
+	if maxMicros <= minMicros {
+		maxMicros = minMicros + 1
+	}
+	verifWidenMinUs.Store(minMicros)
+	verifWidenMaxUs.Store(maxMicros)
+	if newMaxMicros <= newMinMicros {
+		newMaxMicros = newMinMicros + 1
+	}
+	verifWidenNewLo.Store(newMinMicros)
+	verifWidenNewHi.Store(newMaxMicros)
+}
+
+// VerifLockSectionsReviewed names the split sections that are known (Func|FirstFunc:R>SecondFunc,
+// Func|FirstFunc:W>SecondFunc or Func|* for every split section of Func): their windows are widened less often.
+// Forgets the sites learned so far.
+func VerifLockSectionsReviewed(keys []string) {
+	verifSplitMu.Lock()
+	verifReviewed = map[string]struct{}{}
+	for _, k := range keys {
+		verifReviewed[k] = struct{}{}
+	}
+	verifWidenTab.Store(nil)
+	verifSplitMu.Unlock()
+}
+
+func verifSplitNames(k verifSplitKey) (fn, first, second string, self, reviewed bool) {
+	fn = verifCommonFunc(k.f1, k.f2)
+	first, second = verifInnerFunc(k.a1), verifInnerFunc(k.a2)
+	self = verifRecvType([]string{fn}) == verifRecvType([]string{second}) && strings.Contains(second, ".(")
+	mode := ":W>"
+	if k.read {
+		mode = ":R>"
+	}
+	if _, reviewed = verifReviewed[fn+"|*"]; !reviewed {
+		_, reviewed = verifReviewed[fn+"|"+first+mode+second]
+	}
+	return
+}
+
+// VerifLockSectionsAvailable: the frame pointer walk passed its start-up comparison with runtime.Callers.
+func VerifLockSectionsAvailable() bool {
+	var st verifStack
+	verifWalk(0, &st)
+	return verifFPOK
+}
+
+func verifSectionsReset() {
+	verifSplitMu.Lock()
+	verifSplits = map[verifSplitKey]*verifSplitRec{}
+	verifSplitSeq = 0
+	verifSplitMu.Unlock()
+	verifWidenTotal.Store(0)
+	// the learned sites stay (program counters do not change inside a process); their per-trace counters restart
+	if tab := verifWidenTab.Load(); tab != nil {
+		for _, sites := range *tab {
+			for _, s := range sites {
+				s.widened.Store(0)
+			}
+		}
+	}
+}
+
+// onRequest runs before a lock call: frames of remembered sections that are no longer on the stack are marked,
+// and a write request of a lock released a moment ago is compared with the remembered sections of that lock.
+func (g *verifG) onRequest(p unsafe.Pointer, read bool, t *verifStack) {
+	if t.n == 0 {
+		return
+	}
+	for k := 0; k < g.ringN; k++ {
+		e := &g.ring[k]
+		verifMarkReturned(e, t)
+		if !read && e.p == p && e.dead < e.st.n {
+			g.checkSplit(e, p, t)
+		}
+	}
+}
+
+// verifMarkReturned advances e.dead over the frames of e that the stack t shows to be gone.
+func verifMarkReturned(e *verifSec, t *verifStack) {
+	for e.dead < e.st.n {
+		i := e.dead
+		id := e.st.ids[i]
+		if t.ids[t.n-1] > id {
+			// every frame seen of t is deeper than this frame
+			if t.n == verifFPDepth {
+				return // t was cut off before it reached this depth: unknown, assume the frame is still there
+			}
+			e.dead++
+			continue
+		}
+		alive := false
+		for j := 0; j < t.n; j++ {
+			if t.ids[j] == id {
+				// same place on the stack: still the same invocation if it returns to the same place
+				alive = i+1 >= e.st.n || j+1 >= t.n || e.st.pcs[i+1] == t.pcs[j+1]
+				break
+			}
+			if t.ids[j] < id {
+				break
+			}
+		}
+		if alive {
+			return
+		}
+		e.dead++
+	}
+}
+
+// checkSplit: e is a finished section on lock p, t the stack of a write request of p by the same goroutine.
+func (g *verifG) checkSplit(e *verifSec, p unsafe.Pointer, t *verifStack) {
+	i, j := e.st.n-1, t.n-1
+	common := false
+	for i >= e.dead && j >= 0 {
+		switch {
+		case e.st.ids[i] == t.ids[j]:
+			if e.st.pcs[i] != t.pcs[j] {
+				// outermost difference: both acquisitions happened inside this frame, at two places
+				f1, f2 := runtime.FuncForPC(e.st.pcs[i]-1), runtime.FuncForPC(t.pcs[j]-1)
+				if f1 == nil || f2 == nil || f1.Entry() != f2.Entry() {
+					return
+				}
+				g.recordSplit(e, p, t, i, j)
+				return
+			}
+			common = true
+			i--
+			j--
+		case e.st.ids[i] < t.ids[j]:
+			if common {
+				return // the stacks part without a common frame that differs: not one invocation
+			}
+			i--
+		default:
+			if common {
+				return
+			}
+			j--
+		}
+	}
+}
+
+func (g *verifG) recordSplit(e *verifSec, p unsafe.Pointer, t *verifStack, i, j int) {
+	k := verifSplitKey{f1: e.st.pcs[i], f2: t.pcs[j], a1: e.st.pcs[0], a2: t.pcs[0], read: e.read}
+	verifSplitMu.Lock()
+	r := verifSplits[k]
+	if r == nil {
+		if verifSplits == nil {
+			verifSplits = map[verifSplitKey]*verifSplitRec{}
+		}
+		verifSplitSeq++
+		r = &verifSplitRec{seq: verifSplitSeq, p: p, st1: e.st, st2: *t, l1: i, l2: j, roles: map[string]struct{}{}}
+		r.widened = verifLearn(k, i)
+		verifSplits[k] = r
+		if verifDumpPath != "" {
+			verifDump(k)
+		}
+	}
+	r.count++
+	r.roles[g.role] = struct{}{}
+	verifSplitMu.Unlock()
+}
+
+// verifLearn adds (innermost pc of the first section, level and pc of F) to the widening table (copy on write;
+// called with verifSplitMu held) and returns the counter of the site. Only split sections of a method on its own
+// kind of object are widened.
+func verifLearn(k verifSplitKey, level int) *atomic.Uint64 {
+	a1, pc := k.a1, k.f1
+	old := verifWidenTab.Load()
+	if old != nil {
+		for _, s := range (*old)[a1] {
+			if s.level == level && s.pc == pc {
+				return s.widened
+			}
+		}
+	}
+	tab := map[uintptr][]verifWidenSite{}
+	if old != nil {
+		for k, v := range *old {
+			tab[k] = v
+		}
+	}
+	_, _, _, self, reviewed := verifSplitNames(k)
+	if !self {
+		return &atomic.Uint64{}
+	}
+	site := verifWidenSite{level: level, pc: pc, reviewed: reviewed, widened: &atomic.Uint64{}}
+	tab[a1] = append(append([]verifWidenSite{}, tab[a1]...), site)
+	verifWidenTab.Store(&tab)
+	return site.widened
+}
+
+// onRelease remembers the finished section and decides whether the release is followed by a widening sleep.
+func (g *verifG) onRelease(h *verifHeld) {
+	if h.st.n == 0 {
+		return
+	}
+	if g.ringN < verifRingSize {
+		g.ringN++
+	}
+	// newest first
+	copy(g.ring[1:g.ringN], g.ring[:g.ringN-1])
+	g.ring[0] = verifSec{p: h.p, read: h.read, st: h.st}
+	if verifSeed.Load() == 0 {
+		return
+	}
+	tab := verifWidenTab.Load()
+	if tab == nil {
+		return
+	}
+	for _, s := range (*tab)[h.st.pcs[0]] {
+		if s.level < h.st.n && h.st.pcs[s.level] == s.pc {
+			limit := verifWidenNew.Load()
+			if s.reviewed {
+				limit = verifWidenOld.Load()
+			}
+			if s.widened.Load() < limit && verifWidenTotal.Load() < verifWidenMax.Load() {
+				g.widen = s.widened
+				g.widenNew = !s.reviewed
+			}
+			return
+		}
+	}
+}
+
+// widenNow sleeps after the release that ends the first part of a known split section (three times out of four).
+func (g *verifG) widenNow() {
+	w := g.widen
+	g.widen = nil
+	g.rng += 0x9E3779B97F4A7C15
+	z := g.rng
+	z = (z ^ (z >> 30)) * 0xBF58476D1CE4E5B9
+	z = (z ^ (z >> 27)) * 0x94D049BB133111EB
+	z ^= z >> 31
+	if z&3 == 0 {
+		return
+	}
+	w.Add(1)
+	verifWidenTotal.Add(1)
+	verifYields.Add(1)
+	lo, hi := verifWidenMinUs.Load(), verifWidenMaxUs.Load()
+	if g.widenNew {
+		lo, hi = verifWidenNewLo.Load(), verifWidenNewHi.Load()
+	}
+	time.Sleep(time.Duration(lo+(z>>8)%(hi-lo)) * time.Microsecond)
+}
+
+func verifDump(k verifSplitKey) {
+	fn, first, second, self, _ := verifSplitNames(k)
+	f, err := os.OpenFile(verifDumpPath, os.O_APPEND|os.O_CREATE|os.O_WRONLY, 0o644)
+	if err != nil {
+		return
+	}
+	mode := "W"
+	if k.read {
+		mode = "R"
+	}
+	_, _ = f.WriteString(fn + "|" + verifRecvType([]string{second}) + "|" + first + ":" + mode + ">" + second + ":W|self=" + strconv.FormatBool(self) + "\n")
+	_ = f.Close()
+}
+
+// VerifLockSplits returns the split critical sections seen by the last trace, ordered by first observation.
+func VerifLockSplits() []VerifSplit {
+	verifSplitMu.Lock()
+	defer verifSplitMu.Unlock()
+	var out []VerifSplit
+	for k, r := range verifSplits {
+		s := VerifSplit{FirstRead: k.read, Lock: uintptr(r.p), Count: r.count, Seq: r.seq, Widened: r.widened.Load(),
+			First: verifFramesOf(r.st1.pcs[:r.st1.n]), Second: verifFramesOf(r.st2.pcs[:r.st2.n])}
+		s.Func, s.FirstFunc, s.SecondFunc, s.Self, s.Reviewed = verifSplitNames(k)
+		s.LockType = verifRecvType(s.Second)
+		for role := range r.roles {
+			s.Roles = append(s.Roles, role)
+		}
+		sort.Strings(s.Roles)
+		out = append(out, s)
+	}
+	sort.Slice(out, func(i, j int) bool { return out[i].Seq < out[j].Seq })
+	return out
+}
+
+func verifTrimFunc(fn string) string {
+	return strings.TrimPrefix(fn, "github.com/apache/yunikorn-core/pkg/")
+}
+
+// verifExpand returns the logical frames of one return address, innermost first (inlined calls expanded).
+func verifExpand(pc uintptr) []runtime.Frame {
+	var out []runtime.Frame
+	frames := runtime.CallersFrames([]uintptr{pc})
+	for {
+		f, more := frames.Next()
+		if f.Function != "" {
+			out = append(out, f)
+		}
+		if !more {
+			break
+		}
+	}
+	return out
+}
+
+func verifInnerFunc(pc uintptr) string {
+	x := verifExpand(pc)
+	if len(x) == 0 {
+		return "?"
+	}
+	return verifTrimFunc(x[0].Function)
+}
+
+// verifCommonFunc: pc1 and pc2 are two places in one (physical) function; the result is the innermost logical
+// function (inlined calls expanded) that contains both places.
+func verifCommonFunc(pc1, pc2 uintptr) string {
+	x1, x2 := verifExpand(pc1), verifExpand(pc2)
+	name := "?"
+	i, j := len(x1)-1, len(x2)-1
+	for i >= 0 && j >= 0 && x1[i].Function == x2[j].Function {
+		name = verifTrimFunc(x1[i].Function)
+		if x1[i].Line != x2[j].Line {
+			break
+		}
+		i--
+		j--
+	}
+	return name
+}
+
+func verifFramesOf(pcs []uintptr) []string {
+	if len(pcs) == 0 {
+		return nil
+	}
+	var out []string
+	frames := runtime.CallersFrames(pcs)
+	for {
+		f, more := frames.Next()
+		if f.Function != "" {
+			file := f.File
+			if i := strings.LastIndex(file, "/pkg/"); i >= 0 {
+				file = file[i+1:]
+			}
+			out = append(out, verifTrimFunc(f.Function)+" "+file+":"+strconv.Itoa(f.Line))
+		}
+		if !more {
+			break
+		}
+	}
+	return out
+}
